@@ -214,4 +214,12 @@ theorem TermEnc.iriIndices_unpin_ok {te te' : TermEnc} {iri : String} {r : List 
           subst ha hb
           rfl
 
+/-- `iriIndices` neither reads nor writes `rowOpen`. -/
+theorem TermEnc.iriIndices_rowOpen (te : TermEnc) (b : Bool) (iri : String) :
+    ({ te with rowOpen := b } : TermEnc).iriIndices iri =
+      ({ (te.iriIndices iri).1 with rowOpen := b }, (te.iriIndices iri).2) := by
+  unfold TermEnc.iriIndices
+  dsimp only
+  repeat' (first | rfl | split)
+
 end Jelly
